@@ -104,6 +104,10 @@ enum View {
 }
 #[derive(Clone, Debug)]
 struct Model {
+    /// the server-side values were modified in this request
+    dirty: bool,
+    /// the client-side values were modified in this request
+    client_touched: bool,
     known: bool,
     cycled: bool,
     client: Map,
@@ -187,12 +191,17 @@ async fn run(script: &Value) -> Result<(), Fail> {
     let store = SessionStore::new(racy.clone());
     // model of the store: id -> values
     let mut mstore: HashMap<SessionId, Map> = HashMap::new();
+    let mut seeded_ttl: HashMap<SessionId, std::time::Duration> = HashMap::new();
     if let Some(recs) = script["store"].as_array() {
         for r in recs {
             let id = label_id(r["label"].as_str().unwrap_or("X"));
             let m = map_of_json(&r["state"]);
+            // "ttl_pct": remaining ttl of the record as a percentage of a fresh one
+            let pct = r["ttl_pct"].as_u64().unwrap_or(100).clamp(1, 100);
+            let ttl = cfg.state.ttl.mul_f64(pct as f64 / 100.0);
+            seeded_ttl.insert(id, ttl);
             backend
-                .create(&id, SessionRecordRef { state: Cow::Owned(to_state(&m)), ttl: cfg.state.ttl })
+                .create(&id, SessionRecordRef { state: Cow::Owned(to_state(&m)), ttl })
                 .await
                 .map_err(|e| Fail(format!("script error: cannot seed the store: {e:?}")))?;
             mstore.insert(id, m);
@@ -211,6 +220,8 @@ async fn run(script: &Value) -> Result<(), Fail> {
         };
         let old_id = incoming.as_ref().map(|(id, _)| *id);
         let mut m = Model {
+            dirty: false,
+            client_touched: false,
             known: incoming.is_some(),
             cycled: false,
             client: incoming.as_ref().map(|(_, c)| c.clone()).unwrap_or_default(),
@@ -254,8 +265,9 @@ async fn run(script: &Value) -> Result<(), Fail> {
                     m.look(rec_now.as_ref(), allow);
                     let want = match &mut m.view {
                         View::Deleted => None,
-                        View::Present(mm) => mm.insert(key.clone(), val.clone()),
+                        View::Present(mm) => { m.dirty = true; mm.insert(key.clone(), val.clone()) }
                         _ => {
+                            m.dirty = true;
                             m.view = View::Present(Map::from([(key.clone(), val.clone())]));
                             None
                         }
@@ -266,12 +278,18 @@ async fn run(script: &Value) -> Result<(), Fail> {
                     let got = s.remove_raw(&key).await.map_err(|e| Fail(format!("{at}: error {e:?}")))?;
                     m.look(rec_now.as_ref(), allow);
                     let want = match &mut m.view { View::Present(mm) => mm.remove(&key), _ => None };
+                    if want.is_some() {
+                        m.dirty = true;
+                    }
                     check!(got == want, "{at}: server remove returned {got:?}, expected {want:?}");
                 }
                 "server_clear" => {
                     s.clear().await.map_err(|e| Fail(format!("{at}: error {e:?}")))?;
                     m.look(rec_now.as_ref(), allow);
                     if let View::Present(mm) = &mut m.view {
+                        if !mm.is_empty() {
+                            m.dirty = true;
+                        }
                         mm.clear();
                     }
                 }
@@ -301,17 +319,18 @@ async fn run(script: &Value) -> Result<(), Fail> {
                 }
                 "client_insert" => {
                     let got = s.client_mut().insert_raw(key.clone(), val.clone());
-                    let want = if m.invalidated { None } else { m.client.insert(key.clone(), val.clone()) };
+                    let want = if m.invalidated { None } else { m.client_touched = true; m.client.insert(key.clone(), val.clone()) };
                     check!(got == want, "{at}: client insert returned {got:?}, expected {want:?}");
                 }
                 "client_remove" => {
                     let got = s.client_mut().remove_raw(&key);
-                    let want = if m.invalidated { None } else { m.client.remove(&key) };
+                    let want = if m.invalidated { None } else { m.client_touched = true; m.client.remove(&key) };
                     check!(got == want, "{at}: client remove returned {got:?}, expected {want:?}");
                 }
                 "client_clear" => {
                     s.client_mut().clear();
                     if !m.invalidated {
+                        m.client_touched = true;
                         m.client.clear();
                     }
                 }
@@ -435,6 +454,31 @@ async fn run(script: &Value) -> Result<(), Fail> {
                             match &actual {
                                 Some(a) => { mstore.insert(id, a.clone()); }
                                 None => { mstore.remove(&id); }
+                            }
+                            // TTL policy, where the documentation is unambiguous: same id as the request came in with,
+                            // no race, a record seeded by the script (so its remaining ttl is known)
+                            if !race && !m.cycled && Some(id) == old_id && actual.is_some() {
+                                if let (Some(seed), Some(rec)) = (seeded_ttl.get(&id), backend.load(&id).await.unwrap()) {
+                                    let fresh = cfg.state.ttl;
+                                    let refreshed = rec.ttl > fresh.mul_f64(0.995);
+                                    let on_loads = cfg.state.extend_ttl == TtlExtensionTrigger::OnStateLoadsAndChanges;
+                                    let thr = cfg.state.ttl_extension_threshold.is_some();
+                                    let pct = seed.as_secs_f64() / fresh.as_secs_f64();
+                                    if *seed < fresh.mul_f64(0.99) {
+                                        if m.dirty {
+                                            check!(refreshed, "{at}: modified server-side state was persisted without a fresh ttl (remaining {:?})", rec.ttl);
+                                        } else if matches!(m.view, View::Present(_)) && rec_before.is_some() {
+                                            if on_loads && (!thr || pct < 0.79) {
+                                                check!(refreshed, "{at}: OnStateLoadsAndChanges: the state was loaded (remaining {:.0}% of the ttl) but its ttl was not refreshed", pct * 100.0);
+                                            }
+                                            if (on_loads && thr && pct > 0.81) || (!on_loads && !m.client_touched) {
+                                                check!(!refreshed, "{at}: the ttl was refreshed although the trigger / threshold says it must not be (remaining {:.0}%)", pct * 100.0);
+                                            }
+                                        }
+                                    }
+                                    // from now on the remaining ttl is whatever the store says
+                                    seeded_ttl.insert(id, rec.ttl);
+                                }
                             }
                             cur_rec = actual;
                             rec_id = Some(id);
